@@ -92,6 +92,7 @@ def run_subdivide(nodes, flat):
     real_bezmisc = plot_utils.bezmisc
     states = [start]
     problems = []
+    budget = SPLIT_BUDGET + 200 * max(len(nodes) - 2, 0)     # explored pieces need <= 19 splits each
 
     def split_hook(bez, par=0.5):
         snap = snapshot(s_p)
@@ -100,16 +101,16 @@ def run_subdivide(nodes, flat):
             if why and len(problems) < 3:
                 problems.append(("transition", f"{desc}: after split {len(states) - 1}: {why}"))
             states.append(snap)
-        if len(states) > SPLIT_BUDGET:
+        if len(states) > budget:
             raise LoopBudget()
         return real_bezmisc.beziersplitatt(bez, par)
 
     plot_utils.bezmisc = types.SimpleNamespace(beziersplitatt=split_hook)
     try:
-        with core.watchdog(5.0):
+        with core.watchdog(5.0 + 0.5 * len(nodes)):
             ret = plot_utils.subdivideCubicPath(s_p, flat)
     except LoopBudget:
-        return [("loop", f"{desc} made more than {SPLIT_BUDGET} splits")], len(states)
+        return [("loop", f"{desc} made more than {budget} splits")], len(states)
     except core.CaseTimeout:
         return [("loop", f"{desc} did not return within 5 s")], len(states)
     except Exception as exc:                # pylint: disable=broad-except
@@ -178,6 +179,17 @@ def two_pieces(pts):
     return ((OUT_A, p_0, p_1), (p_2, p_3, p_4), (p_5, p_6, OUT_B))
 
 
+def long_node_lists():
+    """Node lists of 10..60 nodes chained from lattice points by a fixed modular pattern
+    (index arithmetic over many pieces and many insertions)."""
+    out = []
+    for count in (10, 30, 60):
+        for mult in ((3, 5, 7), (2, 7, 4)):
+            out.append(tuple((LATTICE[(mult[1] * k + 1) % 9], LATTICE[(mult[0] * k) % 9],
+                              LATTICE[(mult[2] * k + 2) % 9]) for k in range(count)))
+    return out
+
+
 def _chunk(args):
     kind, items, flats = args
     part = core.Part()
@@ -219,6 +231,8 @@ def run(ctx):
         jobs.append(("two", chunk, [0.3, 1.0] if not ctx.thorough else [0.05, 0.3, 1.0]))
     single = [(((0, 0), (1, 1), (2, 2)),), ()]
     jobs.append(("raw", single, flats))
+    for nodes in long_node_lists():
+        jobs.append(("raw", [nodes], [0.3, 1.0]))
     part = core.fan_out(ctx, _chunk, jobs)
     cnt = part.counters
     coverage = {
@@ -229,7 +243,7 @@ def run(ctx):
         "distinct_nontrivial": cnt.get("nontrivial", 0),
         "rule": "all one-piece curves with 4 control points on the 3x3 lattice (6561) x flatness "
                 f"{flats}; two-piece node lists over a 5-point sub-lattice (5^7, every 9th in "
-                "quick); empty and single-node lists; states = node lists observed after every "
+                "quick); empty and single-node lists; six chained lists of 10..60 nodes; states = node lists observed after every "
                 "split; non-trivial = calls that split at least once; all inputs distinct",
         "samples": core.rotate(part.samples, ctx.seed, 4),
         "max_splits_in_one_call": cnt.get("max_splits", 0),
